@@ -1580,3 +1580,56 @@ def gen_volume_binning():
     ok, log = compile_gen('VolumeBin.v')
     return ('volumebin: statements of trajectory_to_volume (range asserts, grid size 1 + L // r minus one, truncating digitisation, np.unique counts assigned once); '
             'grid size and voxel index proved equal to Model.C08.ngrid / voxel, edge bounds r <= L/n < 2r', ok, 'ok' if ok else log[-600:])
+
+
+# ---------------------------------------------------------------- unit: jump rates (C05)
+def rates_unit():
+    tree = _parse('jumps.py')
+    f = _find_func(tree, 'Jumps', 'rates')
+    body = [s for s in f.body if not (isinstance(s, ast.Expr) and isinstance(s.value, ast.Constant))]
+    src = [ast.unparse(s) for s in body]
+    if src[0] != 'dct = {}' or src[1] != 'parts = [part.counter() for part in self.split(n_parts)]' or src[-1] != 'return df' \
+            or src[-2] != "df.columns = ('rates', 'std')" or src[-3] != 'df = pd.DataFrame(dct).T':
+        raise Unsupported('rates: frame statements')
+    fm = _Formula({'self.trajectory.total_time': 'total_time', 'self.n_floating': 'n_floating'}, {'n_parts': 'n_parts'})
+    if not (isinstance(body[2], ast.Assign) and ast.unparse(body[2].targets[0]) == 'part_time'):
+        raise Unsupported('rates: part_time')
+    fm.env['part_time'] = fm.ev(body[2].value)
+    loop = body[3]
+    if not (isinstance(loop, ast.For) and ast.unparse(loop.target) == 'site_pair' and ast.unparse(loop.iter) == 'self.site_pairs'):
+        raise Unsupported('rates: loop over site pairs')
+    ls = [ast.unparse(s) for s in loop.body]
+    if ls[0] != 'n_jumps = [part[site_pair] for part in parts]' or ls[-1] != 'dct[site_pair] = (float(jump_freq_mean), float(jump_freq_std))':
+        raise Unsupported('rates: loop frame ' + ls[0][:60] + ' / ' + ls[-1][:60])
+    fm.atoms['np.mean(n_jumps)'] = 'mean'
+    fm.atoms['np.std(n_jumps, ddof=1)'] = 'sdev'
+    for st in loop.body[1:-1]:
+        if not (isinstance(st, ast.Assign) and isinstance(st.targets[0], ast.Name)):
+            raise Unsupported('rates: ' + ast.unparse(st)[:80])
+        fm.env[st.targets[0].id] = fm.ev(st.value)
+    return fm.env['jump_freq_mean'], fm.env['jump_freq_std']
+
+
+def gen_rates():
+    os.makedirs(GEN, exist_ok=True)
+    try:
+        em, es = rates_unit()
+    except Unsupported as e:
+        return ('rates', False, f'translator: unsupported {e}')
+    lines = ['(* GENERATED from /repo/src/gemdat/jumps.py (Jumps.rates) on every run -- do not edit *)',
+             'From Coq Require Import Reals Lra.', 'Open Scope R_scope.',
+             '(* mean / sdev: mean and sample standard deviation of the per-part jump counts of one label pair *)',
+             f'Definition gen_rate (mean n_floating total_time n_parts : R) : R := {em}.',
+             f'Definition gen_rate_std (sdev n_floating total_time n_parts : R) : R := {es}.',
+             '(* with mean = (sum of the per-part counts) / n_parts: rate x atoms x total time = number of such jumps counted in the parts,',
+             '   which by C19 (jumps_parts_le_total) never exceeds the number in the whole run *)',
+             'Theorem gen_rate_counts : forall total n_floating total_time n_parts, n_floating <> 0 -> total_time <> 0 -> n_parts <> 0 ->',
+             '  gen_rate (total / n_parts) n_floating total_time n_parts * n_floating * total_time = total.',
+             'Proof. intros. unfold gen_rate. field. repeat split; assumption. Qed.',
+             'Theorem gen_rate_le_whole : forall total whole n_floating total_time n_parts, 0 < n_floating -> 0 < total_time -> 0 < n_parts -> total <= whole ->',
+             '  gen_rate (total / n_parts) n_floating total_time n_parts * n_floating * total_time <= whole.',
+             'Proof. intros. rewrite gen_rate_counts; lra. Qed.']
+    open(os.path.join(GEN, 'Rates.v'), 'w').write('\n'.join(lines) + '\n')
+    ok, log = compile_gen('Rates.v')
+    return ('rates: Jumps.rates (parts from split, part duration, per-pair mean and sample deviation over atoms x part duration) regenerated; proved: '
+            'rate x atoms x total time = jumps counted in the parts (<= jumps of the whole)', ok, 'ok' if ok else log[-600:])
